@@ -72,7 +72,7 @@ def h11_router(S, n_routers=2, regs=2):
     S.cover("routers-checked")
 
 
-def h11_worker(S, n_msgs=3):
+def h11_worker(S, n_msgs=3, backend="mem"):
     """A shared queue with own and foreign messages: only own ones run, foreign ones stay available, untouched."""
     from repid import Job, Router, Worker
     from repid.converter import BasicConverter
@@ -86,7 +86,7 @@ def h11_worker(S, n_msgs=3):
     out = {}
 
     async def main(loop):
-        w = World()
+        w = World(backend=backend)
         await w.open(queues=("shared", "a_private"), record=True)
         ra = Router()
 
@@ -115,13 +115,13 @@ def h11_worker(S, n_msgs=3):
         if run_b:
             wb = Worker(routers=[rb], handle_signals=[], _connection=w.conn, graceful_shutdown_time=1.0, tasks_limit=2)
             tasks.append(asyncio.create_task(wb.run()))
-        await asyncio.sleep(Fraction(3, 10))
+        await asyncio.sleep(Fraction(3, 10) if backend == "mem" else Fraction(3, 2))
         out["alive"] = [not t.done() for t in tasks]
         out["task_errors"] = [repr(t.exception()) for t in tasks if t.done() and not t.cancelled() and t.exception()]
         for t in tasks:
             t.cancel()
         await asyncio.gather(*tasks, return_exceptions=True)
-        await asyncio.sleep(Fraction(1, 100))
+        await asyncio.sleep(Fraction(1, 100) if backend == "mem" else Fraction(1, 2))
         out["places"] = {**{k: v for k, v in w.places("shared").items()}, **{k: v for k, v in w.places("a_private").items()}}
         out["before"] = before
         out["ops"] = {f"m{i}": [c["op"] for c in w.rec.calls if c["id"] == f"m{i}"] for i in range(n_msgs)}
@@ -153,10 +153,16 @@ HARNESSES = [
                     "then": "a worker of all routers, one more registration on that worker, a second worker of the first router"},
             functions=["router.py:Router.actor", "router.py:Router.include_router", "worker.py:Worker.__init__"], covers=["routers-checked"]),
     Harness(name="H11-worker", scenario=h11_worker, workers=16, budget_s=900,
-            params={"quick": {"n_msgs": 2}, "thorough": {"n_msgs": 3}},
-            bounds={"messages": "2 (quick) / 3 (thorough), each one of ping@shared, report@shared, report@a_private, unknown@shared",
+            params={"quick": {"n_msgs": 3}, "thorough": {"n_msgs": 4}},
+            bounds={"messages": "3 (quick) / 4 (thorough), each one of ping@shared, report@shared, report@a_private, unknown@shared",
                     "workers": "service A (ping@shared, report@a_private) always; service B (report@shared) running or not"},
             functions=["worker.py:Worker.run", "_runner.py:_Runner.run_one_queue", "connections/in_memory/consumer.py:_InMemoryConsumer.consume"],
             covers=["workers-ran", "foreign-message"]),
 ]
+HARNESSES.append(
+    Harness(name="H11-worker-redis", scenario=h11_worker, workers=16, budget_s=900,
+            params={"quick": {"n_msgs": 2, "backend": "redis"}, "thorough": {"n_msgs": 3, "backend": "redis"}},
+            bounds={"as H11-worker": "on the real Redis broker/consumer (topic prefix filter, prefetch buffer) over the fake server"},
+            functions=["connections/redis/consumer.py:_RedisConsumer.backgroud_consume"], covers=["workers-ran", "foreign-message"],
+            stubs=["fake Redis server"]))
 ASSUMPTIONS = ["in-memory broker; Redis prefix filter exactness is proved under C07 (H07-names-injective: topic-prefix-filter-exact); RabbitMQ reject-requeue loop is server behaviour"]
